@@ -15,6 +15,9 @@ type PreHook func(*Zlisp, string, []Sexp)
 type PostHook func(*Zlisp, string, Sexp)
 
 type Zlisp struct {
+	// macroDepth counts the macro expansions the code generator is nested in.
+	macroDepth int
+
 	parser    *Parser
 	datastack *Stack
 	addrstack *Stack
